@@ -255,9 +255,12 @@ impl Mul<usize> for ZatBalance {
     type Output = Option<ZatBalance>;
 
     fn mul(self, rhs: usize) -> Option<ZatBalance> {
-        let rhs: i64 = rhs.try_into().ok()?;
-        self.0
-            .checked_mul(rhs)
+        // The product is computed in `i128` so that only the exact result decides the outcome:
+        // a multiplier above `i64::MAX` is not by itself a failure (e.g. zero times anything is
+        // zero).
+        let product = i128::from(self.0).checked_mul(i128::try_from(rhs).ok()?)?;
+        i64::try_from(product)
+            .ok()
             .and_then(|i| ZatBalance::try_from(i).ok())
     }
 }
